@@ -61,7 +61,32 @@ enum Action {
     Version,
 }
 
+/// The size of the stack for the thread that runs the compiler.
+///
+/// The compiler walks the syntax tree recursively and a long expression
+/// (for example a sum of thousands of terms) is a deep tree. The stack of the
+/// main thread overflows for an expression of a few hundred terms so the
+/// compiler runs on a thread with a stack that is large enough for the deepest
+/// tree that a source file of a reasonable size can contain. The memory is
+/// only reserved, not used, unless the tree is that deep.
+const COMPILER_STACK_SIZE: usize = 1024 * 1024 * 1024;
+
 pub fn main() -> Result<(), String> {
+    let compiler = std::thread::Builder::new()
+        .name(String::from("compiler"))
+        .stack_size(COMPILER_STACK_SIZE)
+        .spawn(run)
+        .map_err(|e| e.to_string())?;
+
+    match compiler.join() {
+        Ok(result) => result,
+        // The panic message was already written so exit the same way
+        // as a panic on the main thread.
+        Err(_) => std::process::exit(101),
+    }
+}
+
+fn run() -> Result<(), String> {
     // The Err variant is a String so that the command line shows a nice message.
     let args = Args::parse();
 
